@@ -504,6 +504,8 @@ impl Set {
                     if let Some(k) = set.get_index(index) {
                         k.clone()
                     } else {
+                        // an emptied entry (tombstone left by a deletion under a running iterator)
+                        index += 1;
                         continue;
                     }
                 } else {
